@@ -10,17 +10,26 @@ import nbuild
 FAMDIR = os.path.join(VERIF, ".build", "fam")
 
 
-def export_family(fam, K, CH, sd, extra_env=None):
+def export_family(fam, K, CH, sd, extra_env=None, spec="Families"):
+    """Scenarios are exported by TLC from spec/Families.tla (or from another module with the same export convention:
+    an ASSUME that serializes the scenario set to IOEnv.OUT, run under Families.cfg)."""
     os.makedirs(FAMDIR, exist_ok=True)
-    h = hashlib.sha1(open(os.path.join(SPEC, "Families.tla"), "rb").read()).hexdigest()[:12]
+    h = hashlib.sha1(open(os.path.join(SPEC, spec + ".tla"), "rb").read()).hexdigest()[:12]
     out = os.path.join(FAMDIR, "%s-%s-K%s-CH%s-s%s.ndjson" % (h, fam, K, CH, sd))
     if os.path.exists(out) and os.path.getsize(out) > 0:
         return out
+    # drop exports of older versions of the module
+    for old in os.listdir(FAMDIR):
+        if ("-%s-K" % fam) in old and not old.startswith(h):
+            try:
+                os.remove(os.path.join(FAMDIR, old))
+            except OSError:
+                pass
     tmp = out + ".tmp%d" % os.getpid()
     env = {"FAM": fam, "K": K, "CH": CH, "OUT": tmp}
     if extra_env:
         env.update(extra_env)
-    r = run_tlc("Families.tla", "Families.cfg", env=env, extra=["-seed", str(sd)], timeout=2400, xmx="12g")
+    r = run_tlc(spec + ".tla", "Families.cfg", env=env, extra=["-seed", str(sd)], timeout=2400, xmx="12g")
     if r["error"] or not os.path.exists(tmp):
         raise Broken("family export %s failed: %s\n%s" % (fam, r["error"], r["out"][-2000:]))
     os.replace(tmp, out)
@@ -29,7 +38,7 @@ def export_family(fam, K, CH, sd, extra_env=None):
 
 def load_scenarios(fams, sd):
     """fams: list of dict(fam, K, CH, [maxruns]).  Returns list of scenario dicts with ids."""
-    paths = parallel(lambda f: export_family(f["fam"], f.get("K", 3), f.get("CH", 3), sd), fams)
+    paths = parallel(lambda f: export_family(f["fam"], f.get("K", 3), f.get("CH", 3), sd, spec=f.get("spec", "Families")), fams)
     scen = []
     for f, p in zip(fams, paths):
         for i, line in enumerate(open(p)):
@@ -299,6 +308,8 @@ def engine_check(pid, fams, tier_, maxruns, level_note="", props=None, extra_cov
             "invocations": stats["invokes"], "command_starts": stats["starts"], "trace_stats": dict(stats),
             "known_finding_hits": {k: n for k, (w, n) in known_hits.items()},
             "families": [{k: v for k, v in f.items() if k != "mut"} for f in fams],
+            "families_rule": "family `ddvar` = spec/Dyndep.tla: every deletion / duplication / truncation / substitution variant of a dyndep file at token level, "
+                             "with the reference verdict valid / invalid; valid variants carry their meaning into the graph and get every engine monitor" if any(f.get("spec") == "Dyndep" for f in fams) else None,
             "exhaustive": False,
         }
         if extra_cov:
